@@ -1,4 +1,196 @@
-/-! Line-protocol driver for property C06 (stub until the model exists). -/
+import CprocVerif.Model.Layout
+import CprocVerif.Spec.Abi
+
+/-! Line-protocol driver for property C06 (object layout, enum underlying type).
+
+One output line per input line.  Tokens are separated by single spaces.
+
+```
+type   := i<N>                 integer-like scalar (PROPINT), size = align = N
+        | x<S>:<A>             other scalar (floating, pointer): size S, align A
+        | A <len|?> type       array (`?` = incomplete `T[]`)
+        | S { field* }         struct      | SP { field* }   packed struct
+        | U { field* }         union       | UP { field* }   ("packed" union: model only)
+field  := m <name|-> <align> type     non-bit-field member (`-` = anonymous; align 0 = no _Alignas)
+        | b <name|-> <width> type     bit-field (`-` = unnamed)
+path   := name(.name|[index])*
+```
+* `layout <type> (| <path>)*`          → `ok <size> <align> <r>*`, `r` = `<offset>` or, for a
+                                          bit-field, `<offset>:<before>:<after>:<width>`, or
+                                          `!<kind>` if the path does not resolve; `error <kind>`
+* `spec <target> <type> (| <path>)*`   → the same, answered by `Spec/Abi.lean` (`-` for no answer)
+* `enum <fixed> <item>*`               → `ok <size><s|u>` / `error <kind>`;  `fixed` = `-` or
+                                          `<size><s|u>`; item = `-` (no `=`) or `<u64>:<size><s|u>`
+* `specenum <fixed> <item>*`           → `ok <size><s|u>` / `none`
+-/
+
+open CprocVerif CprocVerif.Layout
+
+def parseIntTy (s : String) : Option IntTy :=
+  if s.length < 2 then none else
+  let sg := s.back
+  match (s.dropEnd 1).toString.toNat? with
+  | some n => if sg == 's' then some ⟨n, true⟩ else if sg == 'u' then some ⟨n, false⟩ else none
+  | none => none
+
+mutual
+  partial def parseType : List String → Option (CType × List String)
+    | [] => none
+    | tok :: rest =>
+      if tok == "A" then
+        match rest with
+        | l :: rest' =>
+          let len : Option (Option Nat) := if l == "?" then some none else l.toNat?.map some
+          match len, parseType rest' with
+          | some len, some (e, rest'') => some (.array e len, rest'')
+          | _, _ => none
+        | [] => none
+      else if tok == "S" || tok == "SP" || tok == "U" || tok == "UP" then
+        match rest with
+        | "{" :: rest' =>
+          match parseFields rest' with
+          | some (fs, rest'') => some (.su (tok == "U" || tok == "UP") (tok == "SP" || tok == "UP") fs, rest'')
+          | none => none
+        | _ => none
+      else if tok.startsWith "i" then
+        (tok.drop 1).toString.toNat?.map fun n => (.scalar n n true, rest)
+      else if tok.startsWith "x" then
+        match (tok.drop 1).toString.splitOn ":" with
+        | [s, a] =>
+          match s.toNat?, a.toNat? with
+          | some s, some a => some (.scalar s a false, rest)
+          | _, _ => none
+        | _ => none
+      else none
+  partial def parseFields : List String → Option (Fields × List String)
+    | "}" :: rest => some (.nil, rest)
+    | k :: name :: n :: rest =>
+      if k == "m" || k == "b" then
+        -- bit-field: `<width>` or `<width>@<align>` (an `_Alignas` on a bit-field is an error)
+        let (n, al) : String × String := match n.splitOn "@" with
+          | [a, b] => (a, b)
+          | _ => (n, "0")
+        match n.toNat?, al.toNat?, parseType rest with
+        | some n, some al, some (ty, rest') =>
+          match parseFields rest' with
+          | some (fs, rest'') =>
+            let nm := if name == "-" then none else some name
+            some (if k == "m" then .cons nm ty n none fs else .cons nm ty al (some n) fs, rest'')
+          | none => none
+        | _, _, _ => none
+      else none
+    | _ => none
+end
+
+/-- `a.b[2].c` → ("a", [field b, index 2, field c]) -/
+def parsePath (s : String) : Option (String × List Desig) :=
+  let s := s.replace "[" ".[" |>.replace "]" ""
+  match s.splitOn "." with
+  | [] => none
+  | first :: rest =>
+    let ds := rest.map fun (p : String) =>
+      if p.startsWith "[" then (p.drop 1).toString.toNat?.map Desig.index else some (Desig.field p)
+    if ds.all Option.isSome then some (first, ds.filterMap id) else none
+
+def splitBar (toks : List String) : List (List String) :=
+  let rec go (cur : List String) (acc : List (List String)) : List String → List (List String)
+    | [] => (cur.reverse :: acc).reverse
+    | t :: ts => if t == "|" then go [] (cur.reverse :: acc) ts else go (t :: cur) acc ts
+  go [] [] toks
+
+def showMember (off : Nat) (m : Member) : String :=
+  match m.width with
+  | none => toString off
+  | some w => s!"{off}:{m.before}:{m.after}:{w}"
+
+def doLayout (toks : List String) : String :=
+  match splitBar toks with
+  | [] => "bad-op"
+  | tyToks :: paths =>
+    match parseType tyToks with
+    | some (ty, []) =>
+      match tinfo ty with
+      | .error e => "error " ++ e.toString
+      | .ok t =>
+        let rs := paths.map fun p =>
+          match parsePath (String.join p) with
+          | none => "!bad-path"
+          | some (n, ds) =>
+            match offsetof ty n ds with
+            | .error e => "!" ++ e.toString
+            | .ok (off, m) => showMember off m
+        " ".intercalate (["ok", toString t.size, toString t.align] ++ rs)
+    | _ => "bad-op"
+
+def doSpec (T : Abi.Target) (toks : List String) : String :=
+  match splitBar toks with
+  | [] => "bad-op"
+  | tyToks :: paths =>
+    match parseType tyToks with
+    | some (ty, []) =>
+      let t := Abi.tinfo T ty
+      let rs := paths.map fun p =>
+        match parsePath (String.join p) with
+        | none => "!bad-path"
+        | some (n, ds) =>
+          match Abi.offsetof T ty n ds with
+          | none => "-"
+          | some (off, m) => showMember off m
+      " ".intercalate (["ok", toString t.size, toString t.align] ++ rs)
+    | _ => "bad-op"
+
+def parseItems (toks : List String) : Option (List EnumItem) :=
+  let r := toks.map fun (t : String) =>
+    if t == "-" then some EnumItem.implicit else
+    match t.splitOn ":" with
+    | [u, ty] =>
+      match u.toNat?, parseIntTy ty with
+      | some u, some ty => some (EnumItem.explicit u ty)
+      | _, _ => none
+    | _ => none
+  if r.all Option.isSome then some (r.filterMap id) else none
+
+def showIntTy (t : IntTy) : String := toString t.size ++ (if t.signed then "s" else "u")
+
+def doEnum (spec : Bool) (toks : List String) : String :=
+  match toks with
+  | [] => "bad-op"
+  | f :: items =>
+    let fixed : Option (Option IntTy) := if f == "-" then some none else (parseIntTy f).map some
+    match fixed, parseItems items with
+    | some fixed, some items =>
+      if spec then
+        match Abi.enumUnderlying fixed items with
+        | some t => "ok " ++ showIntTy t
+        | none => "none"
+      else
+        match enumUnderlying fixed items with
+        | .ok t => "ok " ++ showIntTy t
+        | .error e => "error " ++ e.toString
+    | _, _ => "bad-op"
+
+def step (line : String) : String :=
+  match (line.trimAscii.toString.splitOn " ").filter (· ≠ "") with
+  | "layout" :: rest => doLayout rest
+  | "spec" :: t :: rest =>
+    if t == "x86_64-sysv" then doSpec Abi.x86_64 rest
+    else if t == "aarch64" then doSpec Abi.aarch64 rest
+    else if t == "riscv64" then doSpec Abi.riscv64 rest
+    else "bad-op"
+  | "enum" :: rest => doEnum false rest
+  | "specenum" :: rest => doEnum true rest
+  | _ => "bad-op"
+
+partial def loop (stdin stdout : IO.FS.Stream) : IO Unit := do
+  let line ← stdin.getLine
+  if line.isEmpty then
+    return ()
+  stdout.putStrLn (step line)
+  loop stdin stdout
+
 def main (_args : List String) : IO UInt32 := do
-  IO.eprintln "drv_c06: no model yet"
-  return 2
+  let stdin ← IO.getStdin
+  let stdout ← IO.getStdout
+  loop stdin stdout
+  stdout.flush
+  return 0
